@@ -205,6 +205,42 @@ fn check_reads(txn: &Transaction, m: &TxnModel) -> Option<(String, String)> {
 			}
 		}
 	}
+	// seek to every key (a pending write on exactly the sought key must be found), then one step on
+	if expect_outcome == Outcome::Ok {
+		use surrealkv::LSMIterator;
+		match txn.range(LO, HI) {
+			Err(e) => return Some(("read-error".into(), format!("range -> Err({e})"))),
+			Ok(mut it) => {
+				for k in KEYS {
+					let pos = exp_f.iter().position(|(ek, _)| ek.as_slice() >= k);
+					let read = |it: &dyn LSMIterator, ok: bool| -> Result<Option<(Vec<u8>, Vec<u8>)>, String> {
+						if !ok {
+							return Ok(None);
+						}
+						Ok(Some((it.key().user_key().to_vec(), it.value().map_err(|e| format!("value: {e}"))?)))
+					};
+					let got = match it.seek(k).map_err(|e| format!("{e}")).and_then(|ok| read(&it, ok)) {
+						Ok(g) => g,
+						Err(e) => return Some(("read-error".into(), format!("seek({}): {e}", hex(k)))),
+					};
+					let exp = pos.map(|p| exp_f[p].clone());
+					if got != exp {
+						return Some(("ryow-seek".into(), format!("seek({}) on the full range = {:?}, expected {:?}", hex(k), got.map(|(k, v)| format!("{}={}", hex(&k), hex(&v))), exp.map(|(k, v)| format!("{}={}", hex(&k), hex(&v))))));
+					}
+					if let Some(p) = pos {
+						let got = match it.next().map_err(|e| format!("{e}")).and_then(|ok| read(&it, ok)) {
+							Ok(g) => g,
+							Err(e) => return Some(("read-error".into(), format!("seek({}) then next: {e}", hex(k)))),
+						};
+						let exp = exp_f.get(p + 1).cloned();
+						if got != exp {
+							return Some(("ryow-seek".into(), format!("seek({}) then next = {:?}, expected {:?}", hex(k), got.map(|(k, v)| format!("{}={}", hex(&k), hex(&v))), exp.map(|(k, v)| format!("{}={}", hex(&k), hex(&v))))));
+						}
+					}
+				}
+			}
+		}
+	}
 	// bounded scans whose bounds are the keys themselves: [k1, k2) for every ordered pair (a pending
 	// write ON the end bound is outside, one on the start bound inside)
 	if expect_outcome == Outcome::Ok {
@@ -455,7 +491,7 @@ pub fn check(tier: Tier) -> i32 {
 	let plans: Vec<(OptSet, usize, usize)> = if tier == Tier::Quick {
 		vec![(plain.clone(), 3, 3), (plain.clone(), 2, 4), (versioned.clone(), 1, 4)]
 	} else {
-		vec![(plain.clone(), 3, 4), (plain.clone(), 2, 5), (versioned.clone(), 1, 5), (versioned.clone(), 2, 4), (plain.clone(), 1, 6)]
+		vec![(plain.clone(), 3, 4), (versioned.clone(), 1, 5), (versioned.clone(), 2, 4), (plain.clone(), 1, 6), (plain.clone(), 2, 5)]
 	};
 	let mut evaluations = 0u64;
 	let mut transitions = 0u64;
@@ -498,6 +534,7 @@ pub fn check(tier: Tier) -> i32 {
 			let nt = std::sync::atomic::AtomicU64::new(0);
 			let st: Mutex<std::collections::HashSet<u64>> = Mutex::new(Default::default());
 			let chunk = (programs.len() / 64).max(1);
+			let aborted = std::sync::atomic::AtomicBool::new(false);
 			programs.par_chunks(chunk).enumerate().for_each(|(ci, part)| {
 				let mut base = match make_base(opt) {
 					Ok(b) => b,
@@ -508,6 +545,10 @@ pub fn check(tier: Tier) -> i32 {
 				};
 				let mut local_states = std::collections::HashSet::new();
 				for (i, p) in part.iter().enumerate() {
+					if i % 256 == 0 && budget.exhausted() {
+						aborted.store(true, std::sync::atomic::Ordering::Relaxed);
+						break;
+					}
 					let r = crate::util::guarded(|| run_program(&mut base, p));
 					let r = match r {
 						Ok(r) => r,
@@ -529,7 +570,13 @@ pub fn check(tier: Tier) -> i32 {
 				}
 				st.lock().unwrap().extend(local_states);
 			});
-			evaluations += programs.len() as u64;
+			if aborted.load(std::sync::atomic::Ordering::Relaxed) {
+				all_complete = false;
+				report.set("cap_hit", json!(format!("time cap hit inside opt={} keys={} len={} ({} programs, not counted)", opt.name, nkeys, len, programs.len())));
+			}
+			if !aborted.load(std::sync::atomic::Ordering::Relaxed) {
+				evaluations += programs.len() as u64;
+			}
 			transitions += programs.iter().map(|p| p.calls.len() as u64 + 1).sum::<u64>();
 			nontrivial += nt.load(std::sync::atomic::Ordering::Relaxed);
 			states.extend(st.into_inner().unwrap());
@@ -548,6 +595,9 @@ pub fn check(tier: Tier) -> i32 {
 					what: if *n == 1 { format!("[{}] {} => {}", opt.name, p.short(), text) } else { String::new() },
 					replay: if *n == 1 { json!({"engine": "c08", "options": opt.to_json(), "program": p.to_json()}) } else { J::Null },
 				});
+			}
+			if aborted.load(std::sync::atomic::Ordering::Relaxed) {
+				break 'outer;
 			}
 			completed.push(format!("opt={} keys={} len={} programs={}", opt.name, nkeys, len, programs.len()));
 		}
